@@ -259,3 +259,20 @@ class DSDLTemplateLoader(BaseLoader):
                         discovered.add(current_search_type)
 
         return template_path
+
+    def get_template_resources(self) -> typing.List[pathlib.Path]:
+        """
+        Enumerate the files the loaders can hand out that are not templates by suffix (for example the assets
+        an HTML template includes verbatim). Like :meth:`get_templates` these are inputs of the generator.
+        """
+        files = set()  # type: typing.Set[pathlib.Path]
+        if self._fsloader is not None:
+            for template_dir in self._fsloader.searchpath:
+                files.update(p for p in pathlib.Path(str(template_dir)).glob("**/*") if p.is_file())
+        if self._package_loader is not None:
+            templates_module = importlib.import_module(self._templates_package_name)
+            file_perhaps = templates_module.__spec__.origin if templates_module.__spec__ is not None else None
+            if file_perhaps is not None and file_perhaps != "builtin":
+                templates_base_path = pathlib.Path(file_perhaps).parent
+                files.update(templates_base_path / pathlib.Path(t) for t in self._package_loader.list_templates())
+        return sorted(f for f in files if f.suffix not in (TEMPLATE_SUFFIX, ".py", ".pyc"))
